@@ -11,10 +11,19 @@ EXTENDS EwLsqOps, TLC, Json
 CONSTANTS MaxLen, MaxV, Wts,
           CoSort,        \* TRUE = array weights are permuted with the data
           ZerosFirst,    \* TRUE = deviation: zeros removed before ranking
-          PosRule        \* "mid" = (i - 1/2)/n ; "in" = deviation i/n
-VARIABLES pc, method, wk, F, d, w, ord, cur
+          PosRule,       \* "mid" = (i - 1/2)/n ; "in" = deviation i/n
+          SharedPos,     \* TRUE = deviation: with a fixed delta the linearised positions
+                         \*        log10(-ln(1-p^(1/delta))) are kept in a process-wide table keyed by the
+                         \*        sample size only, so an earlier fit with another delta supplies them
+          HistLen        \* histories (an earlier fixed-delta fit on an equally long sample) are explored
+                         \* for data vectors up to this length
+VARIABLES pc, method, wk, F, d, w, ord, cur,
+          dcode,         \* the delta in force: 0 = free, 1 / 2 = two different fixed values
+          prev,          \* history: 0 = no earlier fit; 1 / 2 = an earlier fit of ANOTHER instance with that
+                         \*          fixed delta on a sample of the same length
+          lind           \* the delta the linearised positions handed to the regression were computed for
 
-vars == <<pc, method, wk, F, d, w, ord, cur>>
+vars == <<pc, method, wk, F, d, w, ord, cur, dcode, prev, lind>>
 
 Methods == {"lsq", "wlsq", "mle", "other"}
 DataVecs == UNION {[1..n -> 0..MaxV] : n \in 1..MaxLen}
@@ -34,6 +43,9 @@ Init ==
           /\ \/ wk = "array" /\ w \in WtVecs(Len(d))
              \/ wk \in {"none", "linear", "quadratic", "cubic"} /\ w = [i \in 1..Len(d) |-> One]
     /\ cur = Obs(d, w)
+    /\ lind = -1
+    /\ dcode \in IF F = {"delta"} THEN {1, 2} ELSE {0}
+    /\ prev \in IF Len(d) <= HistLen THEN {0, 1, 2} ELSE {0}
 
 Dispatch ==
     /\ pc = "start"
@@ -41,38 +53,39 @@ Dispatch ==
              ELSE IF wk \in BadWeights THEN "ValueError"         \* the code checks weights first
              ELSE IF ByFixed(F) = "NotImplementedError" THEN "NotImplementedError"
              ELSE IF ZerosFirst THEN "dropfirst" ELSE "sorting"
-    /\ UNCHANGED <<method, wk, F, d, w, ord, cur>>
+    /\ UNCHANGED <<method, wk, F, d, w, ord, cur, dcode, prev, lind>>
 
 DropFirst ==                                       \* only under the ZerosFirst deviation
     /\ pc = "dropfirst"
     /\ cur' = DropZeroStep(cur)
     /\ pc' = "sorting"
-    /\ UNCHANGED <<method, wk, F, d, w, ord>>
+    /\ UNCHANGED <<method, wk, F, d, w, ord, dcode, prev, lind>>
 
 Sort ==
     /\ pc = "sorting"
     /\ ord' = ArgSort([i \in 1..Len(cur) |-> cur[i].x])
     /\ cur' = SortStep(cur, ord')
     /\ pc' = "weights"
-    /\ UNCHANGED <<method, wk, F, d, w>>
+    /\ UNCHANGED <<method, wk, F, d, w, dcode, prev, lind>>
 
 Weights ==
     /\ pc = "weights"
     /\ cur' = IF wk = "array" THEN CoSortStep(cur, ord, CoSort) ELSE KeywordStep(cur, wk)
     /\ pc' = "ranking"
-    /\ UNCHANGED <<method, wk, F, d, w, ord>>
+    /\ UNCHANGED <<method, wk, F, d, w, ord, dcode, prev, lind>>
 
 Rank ==
     /\ pc = "ranking"
     /\ cur' = RankStep(cur, PosRule)
+    /\ lind' = IF SharedPos /\ F = {"delta"} /\ prev # 0 THEN prev ELSE dcode
     /\ pc' = "dropping"
-    /\ UNCHANGED <<method, wk, F, d, w, ord>>
+    /\ UNCHANGED <<method, wk, F, d, w, ord, dcode, prev>>
 
 DropZeros ==
     /\ pc = "dropping"
     /\ cur' = DropZeroStep(cur)
     /\ pc' = ByFixed(F)
-    /\ UNCHANGED <<method, wk, F, d, w, ord>>
+    /\ UNCHANGED <<method, wk, F, d, w, ord, dcode, prev, lind>>
 
 Next == Dispatch \/ DropFirst \/ Sort \/ Weights \/ Rank \/ DropZeros
 Spec == Init /\ [][Next]_vars
@@ -98,7 +111,10 @@ KeywordEqualsArray ==
 NoneEqualsOnes ==
     Done /\ wk = "none" => Fin(d, [i \in 1..Len(d) |-> 1], "array") = cur
 
+(* the regression sees the positions linearised with the delta in force, whatever was fitted before *)
+LinearisedForOwnDelta == Done => lind = dcode
+
 (* ---- leg R: the enumerated inputs *)
 CaseRec == [method |-> method, wk |-> wk, fixed |-> F, d |-> d, w |-> w]
-Emit == pc = "start" => PrintT(<<"BEH", ToJson(CaseRec)>>)
+Emit == pc = "start" /\ prev = 0 /\ dcode <= 1 => PrintT(<<"BEH", ToJson(CaseRec)>>)
 =============================================================================
